@@ -26,7 +26,7 @@ m = {
     "hooks": {"guard": "URAL_VERIF", "enable": "no hooks: checks import ural from /repo's working tree (PYTHONPATH=/repo) and read its source with inspect/ast on every run",
               "baseline_off_cmd": "cd /repo && /venv/bin/python -m pytest -q -p no:cacheprovider", "source_commits": [], "add_only": True},
     "engines": [{"name": "pysx", "path": "pysx/", "serves_properties": sorted(CLAIMED),
-                 "kind_free_text": "AST-level symbolic interpreter of the real Python source (ural + pure-Python stdlib below it) with z3 (QF_BV): symbolic characters over the whole code-point domain, forking by decision-prefix re-execution, regexes by a backtracking matcher over CPython's own sre parse tree; every path validated natively; counterexamples replayed against /repo before being reported"}],
+                 "kind_free_text": "AST-level symbolic interpreter of the real Python source (ural + pure-Python stdlib below it) with z3 (QF_BV): symbolic characters over the whole code-point domain, forking by re-execution under a set of decided literals (solver queried under assumptions, learned unsat cores), regexes by a backtracking matcher over CPython's own sre parse tree; every path validated natively; counterexamples replayed against /repo before being reported"}],
     "checks": checks,
     "not_applicable": [{"property_id": p["id"], "reason": NA.get(p["id"], "check not built yet (work in progress)")} for p in props if p["id"] not in CLAIMED],
     "notes": "All verdicts are bounded: see each evidence file's coverage.bounds. exit 3 = harness error (never a verdict).",
